@@ -20,10 +20,32 @@
    * `C05_conditional_keeps`, `C05_blind_loses` — a client write placed between copy and repoint survives the
      conditional repoint, and is lost by the blind one (the item keeps the new version and points at the copy of
      the old record — exactly what the engine observed before the repair).
-  Partial: reads by position during relocation (`Bucket.get` tolerating a moved position) and cancellation are
-  exercised by the engine only; interleavings are sampled plus the targeted placements, not enumerated.
+  FINE-GRAINED MODEL (GoBeans/Model/ConcGC.lean on top of Model/ConcFine.lean): the client writers / readers /
+  flushers of C04 plus ONE GC thread of 16 micro-steps at the lock granularity of gc.go / datachunk.go (GC takes no
+  bucket-level lock; the chunk lock only inside AppendRecordGC, the tree lock only inside htree.get / movePos; the gc
+  writer's own bufio buffer with append and flush as separate steps; Clear split into field reset and file removal;
+  destination choice, in-place overwrite, truncate), any scheduler.  Three MONITORS mark schedules in which the code
+  leaves the regime the proofs cover (they never change behaviour): `hazInplace` (the destination IS the source: a
+  record overwritten in place before the tree is repointed), `hazReuse` (`gc.Dst++` lands on a file this pass has
+  emptied), `hazCold` (a flush of a file at or below the range while the pass runs / a source whose buffer was never
+  flushed).  For EVERY schedule in which no monitor fires and with the conditional repoint (`C05_fine_grained`,
+  `C05_tree_item_readable`, `C05_repoint_keeps_client_write`, `C05_gc_invisible_fine`, `C05_every_boundary`,
+  `C05_no_fatal`): per-key histories are atomic executions (failed gets are not events), the tree item of a key
+  always points at a record of that key and version readable by the reader's code path, a client write linearised
+  after the newest-check survives the repoint, no GC micro-step changes any key's register, at every file boundary
+  (also after a cancel) every key holds its last linearised write, no Fatalf.
+  With a monitor fired the statements FAIL ON THE MODEL — counterexamples proved by evaluation, NOT yet reproduced on
+  the real code (candidate findings, DESIGN.md §9.4): `ConcGC.Ex.ce_inplace_get_fails` (a get between the in-place
+  overwrite and the repoint fails), `ce_reuse_wrong_value` (a reader parked across the reuse of an emptied file
+  returns the key's NEWER value under its older version: `C05_unrestricted_statement_false`), `ce_coldflush_fatal`
+  (a delayed flush of a file GC appends to hits Fatalf "wrong data file size"), `ce_unflushed_lost` (F25: a source
+  whose post-rotation flush has not run loses acknowledged writes), `ce_stale_reader_fails` (no monitor: a get that
+  took its position before the repoint fails after the source file is removed — an error, never a wrong value).
+  Partial: sequential consistency, one bucket, one pass, no collisions / hint / collision-table state; interleavings
+  on the real code are sampled plus the targeted placements (engine conc), not enumerated.
 -/
 import GoBeans.Lemmas.Conc
+import GoBeans.Lemmas.ConcGC
 open Conc
 
 theorem C05_gc_invisible (steps : List GStep) (s : KeyState) (pend : List (Nat × Nat))
@@ -47,3 +69,41 @@ example : WF exK [] exSched := by
   decide
 example : (exSched.foldl gstep exK).reg = { ver := 2, val := 9 } := by decide +kernel
 example : ([GStep.gcCopy 1 5, .client (.write 9) 8, .gcMoveBlind 1 5].foldl gstep exK).reg = { ver := 2, val := 7 } := by decide +kernel
+
+
+/-! GC beside clients, fine-grained (every schedule in which no monitor fires) -/
+
+theorem C05_fine_grained (cfg : ConcGC.GCfg) (hb : cfg.blind = false) (sched : List (Nat × ConcGC.Act))
+    (hz : ConcGC.noHaz (ConcGC.exec cfg ConcGC.init sched)) (k fut : Nat)
+    (hfut : (ConcGC.exec cfg ConcGC.init sched).base.clock ≤ fut) :
+    checkA (ConcFine.histAt (ConcGC.exec cfg ConcGC.init sched).base k fut) = true ∧
+    checkB (ConcFine.histAt (ConcGC.exec cfg ConcGC.init sched).base k fut) = true :=
+  ConcGC.C05_fine_general cfg hb sched hz k fut hfut
+
+theorem C05_repoint_keeps_client_write {cfg : ConcGC.GCfg} {s s' : ConcGC.State} (hb : cfg.blind = false)
+    {r : ConcFine.Rec} {off : Nat} (hpc : s.gc.pc = .gMove r off) {it : ConcFine.Item}
+    (hit : s.base.tree r.key = some it) (hne : it.pos ≠ ⟨s.gc.src, r.off⟩)
+    (h : ConcGC.gmicro cfg s = some s') : s'.base.tree = s.base.tree :=
+  ConcGC.repoint_keeps_client_write hb hpc hit hne h
+
+theorem C05_gc_invisible_fine {cfg : ConcGC.GCfg} {s s' : ConcGC.State} (hb : cfg.blind = false) (hi : ConcGC.Inv s)
+    (hz : ConcGC.noHaz s') (h : ConcGC.gmicro cfg s = some s') (k : Nat) :
+    ConcFine.absReg s'.base k = ConcFine.absReg s.base k :=
+  ConcGC.gc_step_invisible hb hi hz h k
+
+theorem C05_every_boundary (cfg : ConcGC.GCfg) (hb : cfg.blind = false) (sched : List (Nat × ConcGC.Act))
+    (hz : ConcGC.noHaz (ConcGC.exec cfg ConcGC.init sched)) (hbd : ConcGC.atBoundary (ConcGC.exec cfg ConcGC.init sched) = true) (k : Nat) :
+    ConcFine.absReg (ConcGC.exec cfg ConcGC.init sched).base k
+        = ConcFine.regFold {} (ConcFine.opsOf (ConcFine.keyHist (ConcGC.exec cfg ConcGC.init sched).base k)) ∧
+    ∀ it, (ConcGC.exec cfg ConcGC.init sched).base.tree k = some it →
+      ∃ r, ConcFine.lookup ((ConcGC.exec cfg ConcGC.init sched).base.chunks it.pos.chunk) it.pos.off = some r ∧ r.key = k ∧ r.ver = it.ver :=
+  ConcGC.boundary_last_write cfg hb sched hz hbd k
+
+theorem C05_no_fatal (cfg : ConcGC.GCfg) (hb : cfg.blind = false) (sched : List (Nat × ConcGC.Act))
+    (hz : ConcGC.noHaz (ConcGC.exec cfg ConcGC.init sched)) :
+    (ConcGC.exec cfg ConcGC.init sched).base.fatal = false ∧ (ConcGC.exec cfg ConcGC.init sched).base.readErr = false :=
+  ConcGC.no_fatal cfg hb sched hz
+
+/-- WITHOUT the monitor hypothesis the statement is false on the model (a reader parked across the reuse of a file the
+    pass has emptied) — a candidate finding about the code, not reproduced on the real store -/
+theorem C05_unrestricted_statement_false : ¬ ConcGC.C05_fine_statement := ConcGC.C05_fine_statement_false
